@@ -63,8 +63,8 @@ def Aff.bottomExact (A : Aff) : Prop :=
 /-! ### the constructor -/
 
 theorem mkAff_ok {d r : CoordSys} {m : Mat} {dt : DType} {A : Aff} (h : mkAff d r m dt = .ok A) :
-    A.dom = { d with dtype := dt.join (d.dtype.join r.dtype) } ∧
-    A.rng = { r with dtype := dt.join (d.dtype.join r.dtype) } ∧ A.aff = m ∧
+    A.dom = { d with dtype := (dt.join d.dtype).join r.dtype } ∧
+    A.rng = { r with dtype := (dt.join d.dtype).join r.dtype } ∧ A.aff = m ∧
     d.names.Nodup ∧ r.names.Nodup ∧
     shapeOK m (r.names.length + 1) (d.names.length + 1) = true ∧
     bottomOK m d.names.length r.names.length = true := by
@@ -262,7 +262,7 @@ theorem composeList_apply {l : List Aff} {C : Aff} (h : composeList l = .ok C)
 /-! ### refusal -/
 
 theorem DType.join_self (d : DType) : d.join d = d := by
-  cases d <;> rfl
+  cases d <;> decide
 
 theorem mkAff_err {d r : CoordSys} {m : Mat} {dt : DType} {e : Err} (h : mkAff d r m dt = .error e) :
     e = .valueError := by
@@ -784,7 +784,7 @@ theorem inverse_ok {A B : Aff} (h : inverse A = .ok (some B)) :
       rw [hc] at h
       simp only at h
       obtain ⟨hsq', k1, k2, k3⟩ := certInv_some hc
-      cases hm : mkAff A.rng A.dom c (if A.dtype = DType.obj then DType.obj else DType.f8) with
+      cases hm : mkAff A.rng A.dom c (invDType A.dtype) with
       | error e => rw [hm] at h; cases h
       | ok B' =>
           rw [hm] at h
@@ -1025,12 +1025,12 @@ theorem shiftedRange_apply' {A B : Aff} {diff : List Rat} {nm : String} (hA : A.
               simp only [List.length_map, List.length_range] at hj
               rw [hSa _ j hj, getD_map_range _ hj]
 
-theorem appendIoDim_apply' {A B : Aff} {i o : String} {start step : Rat}
-    (h : appendIoDim A i o start step = .ok B) (x : List Rat) (t : Rat) (hx : x.length = A.nin) :
+theorem appendIoDim_apply' {A B : Aff} {i o : String} {start step : Rat} {mdt : DType}
+    (h : appendIoDim A i o start step mdt = .ok B) (x : List Rat) (t : Rat) (hx : x.length = A.nin) :
     B.apply (x ++ [t]) = A.apply x ++ [step * t + start] ∧
     B.dom.names = A.dom.names ++ [i] ∧ B.rng.names = A.rng.names ++ [o] ∧ B.bottomExact := by
   unfold appendIoDim at h
-  cases hm : mkAff ⟨[i], "", .f8⟩ ⟨[o], "", .f8⟩ [[step, start], [0, 1]] .f8 with
+  cases hm : mkAff ⟨[i], "", .f8⟩ ⟨[o], "", .f8⟩ [[step, start], [0, 1]] mdt with
   | error e => rw [hm] at h; cases h
   | ok E =>
       rw [hm] at h
